@@ -78,7 +78,10 @@ Init == now \in Starts /\ cfg \in Configs /\ next = now /\ hist = <<>> /\ phase 
 \* TimeTrigger::new: schedule from the current instant
 New == /\ phase = "new" /\ next' = NextTime(now, cfg.unit, cfg.n, cfg.mod) /\ phase' = "run"
        /\ hist' = <<[op |-> "new", now |-> now, sched |-> next']>> /\ UNCHANGED <<now, cfg>>
-\* a record arrives dt seconds later: fire iff the scheduled instant has been reached, then reschedule from now
+\* a record arrives dt seconds later: fire iff the scheduled instant has been reached, then reschedule from now.
+\* `Le(next, t)` is an order on instants.  In the fixed-offset zones of the histories it coincides with the order of
+\* wall-clock readings; where a zone repeats an hour it does not, and the instants decide: the replay walks arrivals
+\* through the repeated hour of every DST zone and compares each firing with the scheduled instant it reads before.
 Arrive == /\ phase = "run" /\ Len(hist) <= MaxArrivals
           /\ \E dt \in Deltas :
                LET t == AddSecs(now, dt)
